@@ -44,6 +44,7 @@ type C15Op struct {
 	Sector  int    `json:"sector,omitempty"`   // read/verify: pool sector; < 0: a root the host does not store
 	Off     int    `json:"off,omitempty"`      // read: leaf offset
 	Len     int    `json:"len,omitempty"`      // read/write: length code
+	Edge    int    `json:"edge,omitempty"`     // read/verify: 1 range ends at the sector end, 2 whole sector, 3 offset not leaf aligned (end aligned), 4 last leaf only
 }
 
 // C15Case is a sequence over 3 accounts, 5 pools and 2 contracts.
@@ -433,6 +434,22 @@ func (x *c15) service(op C15Op) error {
 		}
 	}
 	length := lenTable[mod(op.Len, len(lenTable))]
+	// the read range, anywhere in the domain core's request validation accepts:
+	// length > 0, end <= SectorSize, end leaf aligned (the offset need not be)
+	readOff := uint64(mod(op.Off, int((proto4.SectorSize-length)/proto4.LeafSize)+1)) * proto4.LeafSize
+	if op.Op == "read" {
+		switch op.Edge {
+		case 1:
+			readOff = proto4.SectorSize - length
+		case 2:
+			readOff, length = 0, proto4.SectorSize
+		case 3:
+			readOff, length = readOff+proto4.LeafSize/2, length-proto4.LeafSize/2
+		case 4:
+			readOff, length = proto4.SectorSize-proto4.LeafSize, proto4.LeafSize
+		}
+	}
+	unaligned := op.Op == "read" && readOff%proto4.LeafSize != 0
 	var cost proto4.Usage
 	switch op.Op {
 	case "read":
@@ -477,6 +494,9 @@ func (x *c15) service(op C15Op) error {
 	}
 	token := x.token(a, op.Bad)
 	what := fmt.Sprintf("%s paid by account %d (own %v + %d pools, drawable %v, cost %v)", op.Op, a, x.Bal[a], len(x.Att[x.Accts[a]]), d, price)
+	if op.Op == "read" {
+		what = fmt.Sprintf("read [%d,+%d) paid by account %d (own %v + %d pools, drawable %v, cost %v)", readOff, length, a, x.Bal[a], len(x.Att[x.Accts[a]]), d, price)
+	}
 	if badToken {
 		what += " [" + op.Bad + "]"
 	}
@@ -500,21 +520,19 @@ func (x *c15) service(op C15Op) error {
 	switch op.Op {
 	case "read":
 		root = rootOf(op.Sector)
-		off := uint64(mod(op.Off, int((proto4.SectorSize-length)/proto4.LeafSize)+1)) * proto4.LeafSize
+		off := readOff
+		x.cs.Classf("read-edge=%d", op.Edge)
 		r := x.R.Read(x.Prices, token, root, off, length, script)
 		res = r.Result
 		verifyServe = func() error {
 			if uint64(len(r.Data)) != length || r.Resp.DataLength != length {
 				return fmt.Errorf("%s: %d bytes delivered, %d requested", what, len(r.Data), length)
 			}
-			pi := rhpx.PoolIndex(root)
-			for l := uint64(0); l < length/proto4.LeafSize; l++ {
-				want := rhpx.SectorLeaf(pi, off/proto4.LeafSize+l)
-				if !bytes.Equal(r.Data[l*proto4.LeafSize:(l+1)*proto4.LeafSize], want[:]) {
-					return fmt.Errorf("%s: delivered bytes differ from the stored sector at leaf %d", what, off/proto4.LeafSize+l)
-				}
+			_, sector := rhpx.PoolSector(rhpx.PoolIndex(root))
+			if !bytes.Equal(r.Data, sector[off:off+length]) {
+				return fmt.Errorf("%s: delivered bytes differ from the stored sector range [%d,+%d)", what, off, length)
 			}
-			if !r.ProofOK {
+			if !unaligned && !r.ProofOK {
 				return fmt.Errorf("%s: the range proof does not verify", what)
 			}
 			return nil
@@ -525,6 +543,13 @@ func (x *c15) service(op C15Op) error {
 	case "verify":
 		root = rootOf(op.Sector)
 		leaf := uint64(mod(op.Off, proto4.LeavesPerSector))
+		switch op.Edge {
+		case 1, 4:
+			leaf = proto4.LeavesPerSector - 1
+		case 2:
+			leaf = 0
+		}
+		x.cs.Classf("verify-edge=%d", op.Edge)
 		r := x.R.Verify(x.Prices, token, root, leaf, script)
 		res = r.Result
 		verifyServe = func() error {
@@ -618,8 +643,26 @@ func (x *c15) service(op C15Op) error {
 		}
 		return x.after(what+" -> "+res.String(), &before)
 	}
+	if unaligned && !res.Done && !res.Aborted {
+		// core's validation admits an offset inside a leaf as long as the end is
+		// aligned; a host may refuse to serve it (no proof exists for half a
+		// leaf) - but then it must not take the money
+		x.cs.Class("read-unaligned-offset-refused")
+		if debitSeq >= 0 && !debit.Failed() {
+			return fmt.Errorf("%s: the request passed validation, the account was debited %v, and then the read failed (%v): paid, nothing delivered", what, price, res)
+		}
+		if serveSeq >= 0 && !debit.Failed() {
+			return fmt.Errorf("%s: sector touched although the request was refused", what)
+		}
+		return x.after(what+" -> "+res.String(), &before)
+	}
 	if !res.Done && !res.Aborted {
 		return fmt.Errorf("%s: refused although the drawable funds cover the cost: %v", what, res)
+	}
+	if unaligned && res.Aborted && debitSeq < 0 && serveSeq < 0 {
+		// refused (see above), the renter just did not wait for the answer
+		x.cs.Class("read-unaligned-offset-refused")
+		return x.after(what+" -> refused, answer unread", &before)
 	}
 	if debitSeq < 0 || debit.Failed() || serveSeq < 0 {
 		return fmt.Errorf("%s: served without the debit / sector operation being recorded", what)
@@ -968,6 +1011,7 @@ func genC15(t *rapid.T) C15Case {
 				op.Sector = -1
 			}
 			op.Off = rapid.IntRange(0, 1<<16).Draw(t, "off")
+			op.Edge = rapid.SampledFrom([]int{0, 0, 0, 1, 2, 3, 3, 4}).Draw(t, "edge")
 			op.Len = rapid.IntRange(0, len(lenTable)-1).Draw(t, "len")
 			if rapid.IntRange(0, 9).Draw(t, "badtoken") == 0 {
 				op.Bad = rapid.SampledFrom([]string{"token-otherkey", "token-expired", "token-otherhost"}).Draw(t, "tokbad")
@@ -980,7 +1024,7 @@ func genC15(t *rapid.T) C15Case {
 
 var c15Prop = kit.Prop[C15Case]{
 	ID:   "C15",
-	Rule: "sequences (2..14, thorough 2..24) over 3 accounts, 5 pools and 2 contracts against the real rhp4.Server: fund, replenish accounts/pools (targets below, at and above the current balance, mixed keys), attach/detach (valid incl. batches and idempotent repeats; signed by the wrong key; bound to another host key; expired; never-funded pool), read/write/verify with the drawable funds (own balance + attached pools, split by drawn weights) topped up to cost-1, cost or cost+1, unknown sectors, invalid account tokens, a renter that stops / stalls / truncates the request or the data stream or does not read the answer, balance queries. Oracle from the recorded Contractor/Sectors calls and a balance model: every credit batch is carried by exactly one doubly-signed revision moving the same total from renter to host; every debit carries core's price of the request and precedes the single sector operation; insufficient funds / invalid token / unknown sector => no data, no sector operation, no balance change; replenish leaves max(before, target); rejected attach/detach never reach the contractor; balances and the ordered attachment table (read by value) equal the model (own balance first, then pools in attachment order) after every step. Non-trivial = a debit that drains the account's own balance and continues into a pool, or a request exactly one hasting short; distinct by hash of the case.",
+	Rule: "sequences (2..14, thorough 2..24) over 3 accounts, 5 pools and 2 contracts against the real rhp4.Server: fund, replenish accounts/pools (targets below, at and above the current balance, mixed keys), attach/detach (valid incl. batches and idempotent repeats; signed by the wrong key; bound to another host key; expired; never-funded pool), read/write/verify with the drawable funds (own balance + attached pools, split by drawn weights) topped up to cost-1, cost or cost+1, ranges over the whole domain the request validation accepts (offset inside a leaf with aligned end, range ending at the sector end, last leaf, whole sector, leaf index 65535), unknown sectors, invalid account tokens, a renter that stops / stalls / truncates the request or the data stream or does not read the answer, balance queries. Oracle from the recorded Contractor/Sectors calls and a balance model: every credit batch is carried by exactly one doubly-signed revision moving the same total from renter to host; every debit carries core's price of the request and precedes the single sector operation; insufficient funds / invalid token / unknown sector => no data, no sector operation, no balance change; replenish leaves max(before, target); rejected attach/detach never reach the contractor; balances and the ordered attachment table (read by value) equal the model (own balance first, then pools in attachment order) after every step. Non-trivial = a debit that drains the account's own balance and continues into a pool, or a request exactly one hasting short; distinct by hash of the case.",
 	Assumptions: []string{
 		"host = rhp4.Server over the repository's reference EphemeralContractor / EphemeralSectorStore, in-memory transport",
 		"a replenish request may list a key twice (the request validation does not exclude it); the expectation is the statement's: the balance ends at max(before, target); a host that refuses such a request outright is accepted too",
